@@ -214,22 +214,32 @@ def parse_properties(code: str, parse_from=0, parse_to=None) -> list:
     pool = []
     state = ParsePropertiesState(parse_from)
 
+    def flush_pending():
+        "Creates property with empty value from pending name, e.g. `@include foo;`"
+        if state.pending_name:
+            name_end, delimiter = state.pending_name[1:3]
+            # NB: no delimiter means it’s the last name in section: `a { b }`
+            value_pos = delimiter if delimiter != -1 else name_end
+            result.append(
+                CSSProperty(fragment, state.pending_name, state.before,
+                            value_pos, value_pos, delimiter,
+                            parse_from))
+            release_range(pool, state.pending_name)
+            state.pending_name = None
+            return True
+
     def scan_callback(token_type, start: int, end: int, delimiter: int):
         if token_type == TokenType.Selector:
+            if not state.nested and flush_pending():
+                # Nested section follows a name without value
+                state.before = parse_from + start
             state.nested += 1
         elif token_type == TokenType.BlockEnd:
             state.nested -= 1
             state.before = parse_from + end
         elif not state.nested:
             if token_type == TokenType.PropertyName:
-                if state.pending_name:
-                    # Create property with empty value
-                    value_pos = state.pending_name[2]
-                    result.append(
-                        CSSProperty(fragment, state.pending_name, state.before,
-                                    value_pos, value_pos, value_pos,
-                                    parse_from))
-                    release_range(pool, state.pending_name)
+                if flush_pending():
                     state.before = parse_from + start
                 state.pending_name = alloc_range(pool, start, end, delimiter)
             elif token_type == TokenType.PropertyValue:
@@ -242,6 +252,8 @@ def parse_properties(code: str, parse_from=0, parse_to=None) -> list:
                 state.before = parse_from + delimiter + 1
 
     scan(fragment, scan_callback)
+    # Name without value at the very end of section
+    flush_pending()
     return result
 
 
